@@ -301,7 +301,8 @@ FILL = {
     ("comment", "markup"): ["<!-- <b tal:content=\"x\">not a statement</b> &amp; -->"],
     ("comment", "bang"): ["<!-- ! not dropped -->"],
     ("cdata", "markup"): ["<![CDATA[ <b>&amp; ]] > ]]>", "<![CDATA[]]>"],
-    ("pi", "php"): ["<?php echo 1 ?>", "<?target?>"],
+    ("pi", "php"): ["<?php echo 1 ?>", "<?target?>", "<?xml-stylesheet href=\"a.xsl\" >x?>", "<?python-version 3.11?>", "<?php // c\n  echo 100 % 3;\n?>",
+                    "<?xml-foo > bar?>"],
     ("doctype", "html5"): ["<!DOCTYPE html>", "<!doctype html>"],
     ("doctype", "public"): ['<!DOCTYPE html PUBLIC "-//W3C//DTD XHTML 1.0 Strict//EN"\n  "http://www.w3.org/TR/xhtml1/DTD/xhtml1-strict.dtd">'],
 }
@@ -313,7 +314,7 @@ ATTRS = {
     "valueless": [" hidden", " a b", " b n=1", ' hidden t="1" r', " checked tr=x nt"],
     "mixedcase": [' CLASS="A" onClick="f()"', ' Id="1"'],
     "spaced": ['  class = "a"\n   id\t=\t"b" ', '\n  x="1"\n', ' a="1"\r\n     b="2"', '\r\n  x="1"', ' a="1"\rb="2" c="3"\r', ' a="1"\r\n\n   b="2"', '\r\n\n\n x="1"\n\r'],
-    "multi": [' a="1" b=\'2\' c=3 d', ' z="1" a="2" m="3"'],
+    "multi": [' a="1" b=\'2\' c=3 d', ' z="1" a="2" m="3"', ' width=100% a="50%" %', ' lang="en" xml:lang="en" id="i"', ' b==x %% c'],
     "entval": [' title="a &amp; b &lt; c &quot;q&quot;"', " alt='&#65;&nbsp;'"],
     "gtval": [' title="a > b"', " on='a>b'"],
     "nsprefix": [' xml:lang="en" xmlns:foo="urn:foo" foo:bar="1"', ' xmlns="http://www.w3.org/1999/xhtml"'],
